@@ -7,6 +7,7 @@
     asm <n> <g1;g2;..> <c1;c2;..>   (groups/cols as a:b:c) -> assembled permutation of atoms 0..n-1
 -/
 import TopSearch.Model.Align
+import TopSearch.Gen.Align
 import TopSearch.Drv.Util
 open TopSearch TopSearch.Drv TopSearch.Align
 
@@ -22,17 +23,17 @@ def stepLine (_ : Unit) (ws : List String) : Unit × String :=
   | ["opt", c, e, rs] =>
     match parseRat? c, parseRat? e, parseList? parseRat? rs with
     | some c, some e, some rs =>
-      ((), toString (optimalAlignment c ⟨e, 0⟩ (tag rs 1) none).data)
+      ((), toString (optimalAlignmentG (improve Gen.Align.cfg.improveStrictLess) c ⟨e, 0⟩ (tag rs 1) none).data)
     | _, _, _ => ((), "bad-op")
   | ["opti", c, e, rs, ei, ris] =>
     match parseRat? c, parseRat? e, parseList? parseRat? rs, parseRat? ei, parseList? parseRat? ris with
     | some c, some e, some rs, some ei, some ris =>
       let k := 1 + rs.length
-      ((), toString (optimalAlignment c ⟨e, 0⟩ (tag rs 1) (some (⟨ei, k⟩, tag ris (k + 1)))).data)
+      ((), toString (optimalAlignmentG (improve Gen.Align.cfg.improveStrictLess) c ⟨e, 0⟩ (tag rs 1) (some (⟨ei, k⟩, tag ris (k + 1)))).data)
     | _, _, _, _, _ => ((), "bad-op")
   | ["tes", c, s, ds] =>
     match parseRat? c, parseRat? s, parseList? parseRat? ds with
-    | some c, some s, some ds => ((), toString (testExactSame c ⟨s, 0⟩ (tag ds 1)).data)
+    | some c, some s, some ds => ((), toString (testExactSameG (improve Gen.Align.cfg.exactImproveStrictLess) c ⟨s, 0⟩ (tag ds 1)).data)
     | _, _, _ => ((), "bad-op")
   | ["asm", n, gs, cs] =>
     match parseNat? n, parseGroups? gs, parseGroups? cs with
